@@ -1,12 +1,17 @@
 from common import COMMON_TB
 
 CONFIG = {
-    "lean_modules": ["SA.Props.C05", "SA.Props.C05Kinds"],
+    "lean_modules": ["SA.Props.C05", "SA.Props.C05Kinds", "SA.Props.C05Fault"],
     # a regression of the class "authentication remembered from an earlier connection" keeps state in the process: name
     # a failing input that fails when run alone in a fresh harness process (see check: confirm_replay)
     "confirm_replay": True,
     "confirm_replay_prefer": r"^tlshist seqn? \S+ \S+ \S+ \S+ \S+ .*\S+,\S+,\S+,\S",   # histories whose configuration changes between attempts
-    "level_text": "Every server KIND applies the full server configuration (SA.Props.C05Kinds): C05_server_kind_manager_is_server_config (regenerated: the expression every "
+    "level_text": "File faults (SA.Props.C05Fault): C05_unreadable_file_no_config / C05_unreadable_file_no_session - whenever a configured certificate, key or CA FILE cannot be read at the moment "
+                  "a TLS configuration is built (missing, a directory, a dangling symlink), no tls.Config is produced and no session is established, for every option set, oracle, kind, host and peer; "
+                  "C05_read_errors_propagate (regenerated SA.Gen.c05FileReadFates / c05FailurePoints: in cert.go every ReadFile reachable from the three getters hands its error to a return - identifiers resolved to "
+                  "their declarations, a shadowed err is not the returned one -, no fallible result is thrown away, AppendCertsFromPEM's verdict guards a return), witness C05_witness_swallowed_ca_read_error; "
+                  "tied to the code by `cafault` cells (real SocketServer / upstream.Socket, StartTLS and TLS listener, client and server side, CA / certificate / key file x {ok, missing, dir, dangling, empty, garbage}). "
+                  "Every server KIND applies the full server configuration (SA.Props.C05Kinds): C05_server_kind_manager_is_server_config (regenerated: the expression every "
                   "AcceptConnection(conn, M, ...) and every X.GetTlsConfig() of internal/server uses is the ServerConfig - `&st.ServerConfig`, `st.ServerConfig`, or the receiver where its struct "
                   "embeds cert.ServerConfig - never the embedded base Config, which satisfies cert.TlsConfig too and never applies RequireClientCert; every path of every kind - socket tcp/unix "
                   "StartTLS + TLS listener, packet StartTLS, stdio both, http ws/wss, dns both - has its site), C05_every_server_kind_applies_full_config (the model's per-kind manager = "
@@ -61,8 +66,12 @@ CONFIG = {
                  "source facts) + model/code differential correspondence + end-to-end certificate matrix",
     "components": [{"name": "tlscfg", "timeout": {"quick": 300, "thorough": 900}},
                    {"name": "authmatrix", "timeout": {"quick": 900, "thorough": 2400}},
-                   {"name": "tlshist", "timeout": {"quick": 900, "thorough": 2400}}],
-    "rule": "authmatrix server kinds (every tier): {pipe, tcp, tcp+tls, unix, unix+tls, udp, stdin, stdin+tls, ws, wss, dns} x requireClientCert=1 x client certificate {none, foreign CA, good} "
+                   {"name": "tlshist", "timeout": {"quick": 900, "thorough": 2400}},
+                   {"name": "cafault", "timeout": {"quick": 600, "thorough": 1200}}],
+    "rule": "cafault: {tcp (StartTLS), tcp+tls} x {client, server requiring client certificates} x option {ca, cert, key} given as a FILE x state of the file at the moment of the connection "
+            "{ok, missing, dir, dangling, empty, garbage} x certificate class of the other end (server: good, sys, untrusted, wronghost, expired; client: none, good, sys, foreign, expired), client with MustSecure; "
+            "monitor: with the configured CA file unusable nobody is authenticated against anything else. "
+            "authmatrix server kinds (every tier): {pipe, tcp, tcp+tls, unix, unix+tls, udp, stdin, stdin+tls, ws, wss, dns} x requireClientCert=1 x client certificate {none, foreign CA, good} "
             "(thorough: all 9 classes), requirement off x none, non-verifying client x {none, foreign}, server CA B x {A-certified, B-certified} client - real SocketServer (tcp and unix-domain, plain and +tls), "
             "PacketServer, IoServer (stdin and stdin+tls), HttpServer (ws, wss), DnsServer with the matching real upstream. "
             "tlscfg: real Config/ClientConfig/ServerConfig.GetTlsConfig on every single-field variation of three base "
